@@ -86,6 +86,22 @@ CHECKS.update({
             BASE_NOTE + " Hook: ACE_TIME_VERIF_HOOKS in BasicZoneProcessor::addTransition.", "3/C02"),
 })
 
+CHECKS.update({
+    "C05": ("exploration",
+            "runtime round-trip/conversion monitors over strided or full int32 sweeps and transition neighbourhoods, ASan+UBSan slice",
+            "Fixed offsets: every 997th second plus all day boundaries for 139 offsets (quick), all 2^32 instants for 9 offsets "
+            "(thorough); database zones of both registries in all four kinds around every transition and on grids, converted "
+            "to sampled other zones. Identities are checked on the value itself, no external oracle needed except the int64 "
+            "civil calendar for fields.",
+            BASE_NOTE + " Verdict domain excludes instants where t+offset leaves the int32 day arithmetic (C09).", "3/C05"),
+    "C07": ("exploration",
+            "runtime monitor with an occurrence-set oracle built from the zone's own instant->offset function on a private processor; ASan+UBSan slice",
+            "Every minute within +-200 min of the wall-clock image of every transition of every zone of both databases, second-"
+            "level edges of every gap/overlap, and seeded random wall times; expectation derived per case from the set of real "
+            "occurrences {L-o : offset(L-o)=o}.",
+            BASE_NOTE + " The instant->offset function is the library's own (tied to zic by C01/C02).", "3/C07"),
+})
+
 PLANNED = {
 }
 
